@@ -422,7 +422,16 @@ type setShardResult[K comparable, V any] struct {
 func (s *Store[K, V]) setShard(shard *Shard[K, V], hash uint64, key K, value V, cost int64, expire int64, nvmClean bool) setShardResult[K, V] {
 	shard.mu.Lock()
 	defer shard.mu.Unlock()
-	return s.setShardWithoutLock(shard, hash, key, value, cost, expire, nvmClean)
+	result := s.setShardWithoutLock(shard, hash, key, value, cost, expire, nvmClean)
+	// whatever the secondary cache holds for this key is older than the value
+	// just stored: invalidate it, or a later Get could be answered with it once
+	// the new value has left memory
+	if s.secondaryCache != nil && result.entry != nil {
+		if err := s.secondaryCache.Delete(key); err != nil {
+			s.secondaryCache.HandleAsyncError(err)
+		}
+	}
+	return result
 }
 
 func (s *Store[K, V]) setShardWithoutLock(shard *Shard[K, V], hash uint64, key K, value V, cost int64, expire int64, nvmClean bool) setShardResult[K, V] {
